@@ -611,28 +611,28 @@ def seed_case(draw, **kw):
 
 
 CLAUSES = [
-    Clause("sweep_cost_public", _KM_ALL_ENTRIES, run_sweep_cost_public, quick=1100, thorough=9000,
+    Clause("sweep_cost_public", _KM_ALL_ENTRIES, run_sweep_cost_public, quick=1100, thorough=18000,
            exhaustive=exhaustive_small,
            doc="every stand-alone sweep leaves the mean squared distance no larger (history via n_iters=1..s)"),
-    Clause("sweep_cost_iterations", _KM_WARM, run_sweep_cost_iterations, quick=800, thorough=8000,
+    Clause("sweep_cost_iterations", _KM_WARM, run_sweep_cost_iterations, quick=800, thorough=15000,
            doc="sweep s+1 of _kmedoids_iterations from identical state (as hybrid calls it) does not raise the cost"),
-    Clause("cluster_count_kept", any_entry_case(), run_cluster_count_kept, quick=800, thorough=8000,
+    Clause("cluster_count_kept", any_entry_case(), run_cluster_count_kept, quick=800, thorough=15000,
            doc="every sweep keeps the number of clusters"),
-    Clause("centers_stay_frames", any_entry_case(), run_centers_stay_frames, quick=800, thorough=8000,
+    Clause("centers_stay_frames", any_entry_case(), run_centers_stay_frames, quick=800, thorough=15000,
            doc="every center stays an actual frame of the input"),
-    Clause("hybrid_not_worse", _HY, run_hybrid_not_worse, quick=700, thorough=7000,
+    Clause("hybrid_not_worse", _HY, run_hybrid_not_worse, quick=700, thorough=13000,
            doc="k-hybrid is never worse in cost than the k-centers solution it starts from"),
-    Clause("reproducible_seed", seed_case(), run_reproducible_seed, quick=700, thorough=7000,
+    Clause("reproducible_seed", seed_case(), run_reproducible_seed, quick=700, thorough=13000,
            doc="with a fixed random seed the outcome is reproducible"),
     Clause("reproducible_proposals", medoid_case(starts=("inds", "state", "all"), drives=("proposals",)),
-           run_reproducible_proposals, quick=550, thorough=6000,
+           run_reproducible_proposals, quick=550, thorough=11000,
            doc="with explicitly supplied proposals the outcome is reproducible"),
     Clause("warm_state_guarantees", medoid_case(starts=("all",), entries=("kmedoids", "KMedoids.fit", "kmedoids")),
-           run_warm_state_guarantees, quick=550, thorough=6000,
+           run_warm_state_guarantees, quick=550, thorough=11000,
            doc="starting from a supplied consistent state (centers, labels, distances) preserves the guarantees"),
     Clause("sweep_cost_large", medoid_case(max_n=200, max_d=8, min_n=30), run_sweep_cost_public, quick=0,
-           thorough=1200, doc="cost history on 30..200 frames"),
+           thorough=2000, doc="cost history on 30..200 frames"),
     Clause("hybrid_large", hybrid_case(max_n=200, max_d=8, min_n=30), run_hybrid_not_worse, quick=0,
-           thorough=1200, doc="hybrid vs k-centers on 30..200 frames"),
+           thorough=2000, doc="hybrid vs k-centers on 30..200 frames"),
 ]
 MATCHERS = {}
